@@ -36,9 +36,9 @@ REACH = [
     "insights/cleaner/utilities.py::write_report",
 ]
 PLAN = {
-    "quick": {"shards": 8, "cases": 220, "timeout_s": 900, "min_evaluations": 1500,
-              "min_counters": {"slots_reconstructed": 100000, "invariant_evaluations": 100000, "mapping_pairs_compared": 10000,
-                               "reports_parsed": 1500}},
+    "quick": {"shards": 8, "cases": 660, "timeout_s": 900, "min_evaluations": 4500,
+              "min_counters": {"slots_reconstructed": 300000, "invariant_evaluations": 300000, "mapping_pairs_compared": 30000,
+                               "reports_parsed": 4500}},
     "thorough": {"shards": 16, "cases": 4000, "timeout_s": 3300, "min_evaluations": 50000,
                  "min_counters": {"slots_reconstructed": 3000000}},
 }
